@@ -289,7 +289,7 @@ func genEnemy(r *term.Rng, contentCat *catalogs) term.T {
 		}
 	}
 	return term.C("En", term.S(k), term.I(int64(lvl)), term.I(int64(hp)), term.I(int64(atk)), term.I(int64(spd)),
-		term.S(term.Pick(r, attackKinds)), term.I(int64(r.Range(1, 3))), term.I(int64(term.Pick(r, []int{0, 50, 100, 400}))),
+		term.S(term.Pick(r, attackKinds)), term.I(int64(term.Pick(r, []int{1, 2, 3, 0, 0}))), term.I(int64(term.Pick(r, []int{0, 50, 100, 400}))),
 		term.S(term.Pick(r, damageTypes)), term.L(ws...),
 		// rank override: every model.EnemyRank incl. the rare ones (0 = keep the enemy's own rank);
 		// toughness small enough to be broken within a few hits (0 = none given)
